@@ -425,3 +425,32 @@ fault("C10.eof-inverted", "C10", E, "        if not location.is_eof():\n        
 fault("C10.solutions-outside-debug", "C10", G, "            forest = Forest(self)\n            if self.debug:\n                a_print(f\"*** {forest.solutions} successful parse(s).\")", "            forest = Forest(self)\n            n_solutions = forest.solutions\n            if self.debug:\n                a_print(f\"*** {n_solutions} successful parse(s).\")", "R10.discipline")
 fault("C10.expected-all", "C10", G, "        self._expected = set(h.token_ahead.symbol for h, _ in self._for_shifter)", "        self._expected = set(h.token_ahead.symbol for h in self._last_shifted_heads if h.token_ahead)", "R10.expected")
 benign("C10.b-reorder", "C10", E, "        self.last_heads = last_heads\n        self.grammar = grammar\n", "        self.grammar = grammar\n        self.last_heads = last_heads\n")
+
+# ---------------------------------------------------------------- C05
+CL = "parglare/closure.py"
+fault("C05.first-unstripped", "C05", T, "                    first_sets[nonterm].update(rhs_symbol_first)\n", "                    first_sets[nonterm].update(first_sets[rhs_symbol])\n", "R05.first")
+fault("C05.first-self-break", "C05", T, "                if EMPTY not in first_sets[rhs_symbol]:\n                    break", "                if EMPTY not in first_sets[rhs_symbol] or rhs_symbol is nonterm:\n                    break", "R05.first")
+fault("C05.first-no-break", "C05", T, "                if EMPTY not in first_sets[rhs_symbol]:\n                    break\n            else:", "                if EMPTY not in first_sets[rhs_symbol]:\n                    pass\n            else:", "R05.first")
+fault("C05.first-no-rearm", "C05", T, "                    first_sets[nonterm].update(rhs_symbol_first)\n                    additions = True\n", "                    first_sets[nonterm].update(rhs_symbol_first)\n", "R05.rearm")
+fault("C05.first-empty-no-rearm", "C05", T, "                    first_sets[nonterm].add(EMPTY)\n                    additions = True\n", "                    first_sets[nonterm].add(EMPTY)\n", "R05.rearm")
+fault("C05.follow-update-first", "C05", T, "                        if prod_follow.difference(follow_sets[symbol]):\n                            additions = True\n                            follow_sets[symbol].update(prod_follow)",
+      "                        follow_sets[symbol].update(prod_follow)\n                        if prod_follow.difference(follow_sets[symbol]):\n                            additions = True", "R05.rearm")
+fault("C05.follow-first-occurrence", "C05", T, "                            additions = True\n                            follow_sets[symbol].update(prod_follow)\n    return follow_sets", "                            additions = True\n                            follow_sets[symbol].update(prod_follow)\n                        break\n    return follow_sets", "R05.nullable-scan")
+fault("C05.follow-no-inherit", "C05", T, "                        else:\n                            prod_follow.update(follow_sets[p.symbol])\n", "", "R05.nullable-scan")
+fault("C05.item-follow-no-break", "C05", CL, "        if EMPTY not in new_follow:\n            # If EMPTY can't be derived at current position then we have found\n            # the whole follow set.\n            break\n        else:", "        if EMPTY not in new_follow:\n            pass\n        else:", "R05.nullable-scan")
+fault("C05.closure-no-requeue", "C05", CL, "                    existing_item.follow.update(follow)\n                    # If there was an update in the follow set of the existing\n                    # item we have to process it again as we have to update\n                    # follows of all items that were created from it.\n                    items_to_process.append(existing_item)",
+      "                    existing_item.follow.update(follow)", "R05.rearm")
+fault("C05.closure-new-no-queue", "C05", CL, "                state.items.append(new_item)\n                items_to_process.append(new_item)", "                state.items.append(new_item)", "R05.rearm")
+fault("C05.propagation-partial-rearm", "C05", T, "                        if this_item.follow.difference(next_item.follow):\n                            update = True\n                            next_item.follow.update(this_item.follow)",
+      "                        if this_item.follow.difference(next_item.follow):\n                            next_item.follow.update(this_item.follow)\n                            if isinstance(next_item.symbol_at_position, NonTerminal):\n                                update = True", "R05.rearm")
+fault("C05.propagation-gotos-only", "C05", T, "                for target_state in chain(\n                    state.gotos.values(),\n                    [\n                        a.state\n                        for i in state.actions.values()\n                        for a in i\n                        if a.action is SHIFT\n                    ],\n                ):",
+      "                for target_state in state.gotos.values():", "R05.rearm")
+fault("C05.discard-in-closure", "C05", CL, "                if not follow.issubset(existing_item.follow):\n                    existing_item.follow.update(follow)", "                if not follow.issubset(existing_item.follow):\n                    existing_item.follow.discard(EMPTY)\n                    existing_item.follow.update(follow)", "R05.monotone")
+fault("C05.alias-follow", "C05", T, "return LRItem(self.production, self.position + 1, set(self.follow))", "return LRItem(self.production, self.position + 1, self.follow)", "R05.monotone")
+fault("C05.search-first-only", "C05", T, "                    target_state = existing_state\n                    break\n", "                    target_state = existing_state\n                break\n", "R05.states")
+fault("C05.no-state-id", "C05", T, "                target_state = maybe_new_state\n                state_queue.append(target_state)\n                state_id += 1", "                target_state = maybe_new_state\n                state_queue.append(target_state)", "R05.states")
+fault("C05.merge-all-items", "C05", T, "        for s in (s for s in old_state.kernel_items if s.is_at_end and s is not old):", "        for s in (s for s in old_state.items if s.is_at_end and s is not old):", "R05.states")
+fault("C05.search-queue-only", "C05", T, "            for existing_state in chain(states, state_queue):", "            for existing_state in state_queue:", "R05.states")
+fault("C05.reduce-skip-default-prior", "C05", T, "                for terminal in follow_set:\n                    if terminal not in actions:", "                for terminal in follow_set:\n                    if terminal.prior < DEFAULT_PRIORITY:\n                        continue\n                    if terminal not in actions:", None)
+fault("C05.slr-item-follow", "C05", T, "                    follow_set = follow_sets[item.production.symbol]", "                    follow_set = follow_sets[item.production.rhs[0]] if item.production.rhs else set()", "R05.reduce-fill")
+benign("C05.b-while-true", "C05", T, "    additions = True\n    while additions:\n        additions = False\n\n        for p in grammar.productions:\n            nonterm = p.symbol", "    additions = True\n    while additions:\n        additions = False\n        for p in grammar.productions:\n            nonterm = p.symbol")
